@@ -95,7 +95,7 @@ fn construct(pre: &Machine, master: bool, known: &Known) -> Option<Machine> {
     // the interrupt status register is not reset by anything but a RETI: reproduce it with presses
     match pre.bus().read(0xF9) {
         0x00 => {}
-        0x01 => e.trigger_key_interrupt(),
+        0x01 => { let _ = e.trigger_key_interrupt(); }
         0x11 => {
             e.raw_mut().bus_mut().write(0xF9, 1);
             e.trigger_key_interrupt();
